@@ -119,6 +119,4 @@ def run(tier):
 
 
 def replay(path):
-    j = json.load(open(path)); rp = j['replay']
-    print(_one(rp))
-    return 0
+    return C.replay_by_rerun(PROP, path)
